@@ -130,7 +130,7 @@ func isCloseOfChan(n ast.Node) bool {
 func CheckC19(c *Ctx) {
 	run := c.Run
 	run.Technique = "typed-AST + go/cfg path lints on the three reader goroutines and the HTTP client code: bounds guard before indexing a decoded record, close-first defer, error branches leave the loop, must-pass-through of Body.Close on every path after a successful request, status check before decoding, file closed after the reader finished"
-	run.Explanation = "The behaviour of encoding/csv, encoding/json and net/http on arbitrary bytes is NOT decided. Decided are the structural conditions on this repository's own reader code: (0) the reader goroutines and the package functions they call contain no panic source of their own - no type assertion without the ok result, no explicit panic (detector exercised on a built-in example on every run); (a) every index into a decoded CSV record is dominated by a comparison against len(record) that leaves the row loop (a header-less file whose first row is shorter than the struct must not panic in a library goroutine); (b) every reader goroutine defers the close of its channel before anything can return; (c) every error branch inside a reader loop leaves the loop, so only the well-formed prefix is delivered; (d) ReadFromFile closes the file only after the reader goroutine finished; (e) in the Tiingo client a non-200 status returns an error before any decoding and, on every control-flow path after a successful request, the response body is closed (go/cfg may-analysis over each function and each goroutine body); (f) JSONToChan verifies the opening delimiter. Further: the status condition is decided on eleven representative statuses (200 passes, everything outside 2xx is an error); no JSON document is decoded into a pointer to a pointer; the bounds guard is decided on small index and length values; the opening-delimiter test leaves exactly when the token differs; an error variable is never used (returned, wrapped, logged) in the branch where it is known to be nil; the helpers the readers rely on for closing close what they are given and do nothing else."
+	run.Explanation = "The behaviour of encoding/csv, encoding/json and net/http on arbitrary bytes is NOT decided. Decided are the structural conditions on this repository's own reader code: (0) the reader goroutines and the package functions they call contain no panic source of their own - no type assertion without the ok result, no explicit panic (detector exercised on a built-in example on every run); (a) every index into a decoded CSV record is dominated by a comparison against len(record) that leaves the row loop (a header-less file whose first row is shorter than the struct must not panic in a library goroutine); (b) every reader goroutine defers the close of its channel before anything can return; (c) every error branch inside a reader loop leaves the loop, so only the well-formed prefix is delivered; (d) ReadFromFile closes the file only after the reader goroutine finished; (e) in the Tiingo client a non-200 status returns an error before any decoding and, on every control-flow path after a successful request, the response body is closed (go/cfg may-analysis over each function and each goroutine body); (f) JSONToChan verifies the opening delimiter. Further: the status condition is decided on eleven representative statuses (200 passes, everything outside 2xx is an error); no JSON document is decoded into a pointer to a pointer; the bounds guard is decided on small index and length values; the opening-delimiter test leaves exactly when the token differs; an error variable is never used (returned, wrapped, logged) in the branch where it is known to be nil; the helpers the readers rely on for closing close what they are given and do nothing else. The CSV reader stays strict: no assignment gives FieldsPerRecord or LazyQuotes of an encoding/csv.Reader a non-zero value, so a row with a different field count or bad quoting ends the stream."
 	run.Trusted = []string{"go/types", "go/cfg control-flow graphs", "encoding/csv FieldsPerRecord check (relied upon only for rows after the first)"}
 	hp := c.P.Pkg("helper")
 	ap := c.P.Pkg("asset")
@@ -247,6 +247,7 @@ func CheckC19(c *Ctx) {
 	}
 	c.constructorDiscipline("reader/construction", "asset", "helper", "backtest")
 	c.closeHelpers()
+	c.csvStrictness()
 	c.decodeTargets()
 	c.errorOrientation("reader/error-orientation", "asset", "helper")
 	c.errorTestedFirst("reader/error-tested", 55, "asset", "helper")
